@@ -1,0 +1,35 @@
+//go:build verif
+
+package lock
+
+// VerifSnapshot returns, for one key, the caller IDs in queue order and whether each
+// caller's ready channel is closed (verification builds only). ok is false when the
+// key has no queue in the map.
+func VerifSnapshot(lk Lock, key string) (ids []string, ready []bool, ok bool) {
+	l := lk.(*lock)
+	v, found := l.queues.Load(key)
+	if !found {
+		return nil, nil, false
+	}
+	q := v.(*queue)
+	q.mu.Lock()
+	defer q.mu.Unlock()
+	for _, c := range q.callers {
+		ids = append(ids, c.id)
+		select {
+		case <-c.ready:
+			ready = append(ready, true)
+		default:
+			ready = append(ready, false)
+		}
+	}
+	return ids, ready, true
+}
+
+// VerifQueueCount returns the number of per-key entries held in the queue map.
+func VerifQueueCount(lk Lock) int {
+	l := lk.(*lock)
+	n := 0
+	l.queues.Range(func(_, _ any) bool { n++; return true })
+	return n
+}
